@@ -159,7 +159,14 @@ Definition walk_spec_ok (fs : fsmap) (c : wcase) : bool :=
     | NRejected _ => k =? 3
     | NOut => true
     end
-  else true.
+  else
+    match import_resolve hbuiltin fs [] (map s_ dir) (s_ sp) with
+    | NFile q => (k =? 0) && path_eqb q (map s_ p)
+    | NBuiltin _ => k =? 1
+    | NNotFound => k =? 2
+    | NRejected _ => k =? 3
+    | NOut => true
+    end.
 
 Fixpoint check_trees (ok : fsmap -> wcase -> bool) (l : list (cfs * list wcase)) (t : nat) : list nat :=
   match l with
